@@ -62,8 +62,14 @@ def handler_blocks(f, trynode):
     return out
 
 
+NO_INLINE = set()          # qualified names of static functions that must stay opaque
+DEFAULT_INLINE = None     # set by the Context: resolver (f, call node) -> Function to splice, or None
+_INLINE_DEPTH = [0]
+
+
 def enumerate_paths(f, stop=None, may_throw=None, max_visits=2, limit=200000, invalidate_on_call=None,
-                    start_block=None, assume=None, follow_const=True, decide=None, end_blocks=None, init_val=None):
+                    start_block=None, assume=None, follow_const=True, decide=None, end_blocks=None, init_val=None,
+                    inline="default"):
     """Enumerate entry->end paths of f's CFG.
     stop(f,node) -> True if executing this element ends the path ('stop': e.g. a call that never returns).
     may_throw(f,node) -> True if the element may raise a C++ exception (forks to the handlers of the
@@ -73,25 +79,43 @@ def enumerate_paths(f, stop=None, may_throw=None, max_visits=2, limit=200000, in
     paths = []
     start = f.entry if start_block is None else start_block
     count = [0]
+    resolver = DEFAULT_INLINE if inline == "default" else inline
+    callee_paths = {}
 
-    def run(b, val, decisions, trace, visits, blocks):
+    def inlined(g):
+        if g.mn not in callee_paths:
+            _INLINE_DEPTH[0] += 1
+            try:
+                callee_paths[g.mn] = enumerate_paths(g, stop=stop, may_throw=may_throw, max_visits=max_visits, limit=2000,
+                                                     follow_const=follow_const, inline=resolver if _INLINE_DEPTH[0] < 3 else None)
+            except AnalysisBroken:
+                callee_paths[g.mn] = None
+            finally:
+                _INLINE_DEPTH[0] -= 1
+        return callee_paths[g.mn]
+
+    def run(b, val, decisions, trace, visits, blocks, resume_at=None):
         while True:
             if count[0] > limit:
                 raise AnalysisBroken("path explosion in %s" % f.qn)
-            if end_blocks and b in end_blocks and blocks:
-                count[0] += 1
-                paths.append(Path(decisions, list(trace), "endblock", None, blocks + [b]))
-                return
-            visits = dict(visits)
-            visits[b] = visits.get(b, 0) + 1
-            if visits[b] > max_visits:
-                return
+            if resume_at is None:
+                if end_blocks and b in end_blocks and blocks:
+                    count[0] += 1
+                    paths.append(Path(decisions, list(trace), "endblock", None, blocks + [b]))
+                    return
+                visits = dict(visits)
+                visits[b] = visits.get(b, 0) + 1
+                if visits[b] > max_visits:
+                    return
+                blocks = blocks + [b]
             blk = f.blocks[b]
-            blocks = blocks + [b]
             trace = list(trace)
             val = dict(val)
             ended = False
-            for e in blk["el"]:
+            first = resume_at or 0
+            resume_at = None
+            for ei in range(first, len(blk["el"])):
+                e = blk["el"][ei]
                 trace.append(e)
                 if isinstance(e, int):
                     n = f.nodes[e]
@@ -130,6 +154,33 @@ def enumerate_paths(f, stop=None, may_throw=None, max_visits=2, limit=200000, in
                         paths.append(Path(decisions, trace, "stop", None, blocks))
                         ended = True
                         break
+                    if resolver is not None and n["k"] in CALL_KINDS:
+                        g = resolver(f, n)
+                        cps = inlined(g) if g is not None and g is not f else None
+                        if cps:
+                            forked = False
+                            if len(cps) == 1 and cps[0].end == "return":
+                                cp = cps[0]
+                                trace.extend(_as_nodes(g, cp.trace))
+                                decisions = decisions + [("%s::%s" % (g.name, k), v, b, e) for k, v, _, _ in cp.decisions]
+                            else:
+                                for cp in cps:
+                                    t2 = trace + _as_nodes(g, cp.trace)
+                                    d2 = decisions + [("%s::%s" % (g.name, k), v, b, e) for k, v, _, _ in cp.decisions]
+                                    if cp.end in ("return", "endblock"):
+                                        run(b, val, d2, t2, visits, blocks, resume_at=ei + 1)
+                                    elif cp.end == "throw":
+                                        t = enclosing_try(f, n)
+                                        if t is None:
+                                            count[0] += 1
+                                            paths.append(Path(d2, t2, "throw", None, blocks))
+                                        else:
+                                            for hb in handler_blocks(f, t):
+                                                run(hb, val, d2, t2, visits, blocks)
+                                    else:
+                                        count[0] += 1
+                                        paths.append(Path(d2, t2, cp.end, None, blocks))
+                                return
                     if n["k"] == "CXXThrowExpr":
                         ended = True
                         t = enclosing_try(f, n)
@@ -277,6 +328,28 @@ def resolve(f, cn, val, decisions, b, cid, decide, follow_const, assume):
             v2[key] = pol if truth else (not pol)
             out.append((v2, decisions + [(key, v2[key], b, cid)], truth))
     go(val, decisions, 0)
+    return out
+
+
+def _as_nodes(g, trace):
+    """elements of a callee path as node dicts (so that they stay meaningful inside the caller's trace)"""
+    out = []
+    for e in trace:
+        if isinstance(e, int):
+            out.append(g.nodes[e])
+        else:
+            out.append(e)
+    return out
+
+
+def trace_nodes(f, p):
+    """all AST nodes executed along path p, including nodes of spliced (inlined) callees"""
+    out = []
+    for e in p.trace:
+        if isinstance(e, int):
+            out.append(f.nodes[e])
+        elif isinstance(e, dict) and "k" in e:
+            out.append(e)
     return out
 
 
